@@ -227,7 +227,15 @@ def gen_plan(rng):
         if 0.18 <= k < 0.45 and templates and rng.random() < 0.85:
             p = rng.choice(templates)
         if k < 0.18:
-            steps.append({"op": "dumps", "obj": p["id"]})
+            if rng.random() < 0.3:
+                # dump() to a stream: the writer is the package's one output seam; it may
+                # fail (full disk, closed pipe) at its first or a later write call
+                st = {"op": "dump", "obj": p["id"], "writer": "ok"}
+                if rng.random() < 0.5:
+                    st.update({"writer": rng.choice(["ENOSPC", "EIO", "EPIPE"]), "nth": rng.choice([1, 1, 2, 3])})
+                steps.append(st)
+            else:
+                steps.append({"op": "dumps", "obj": p["id"]})
         elif k < 0.45:
             mode = "ok"
             if rng.random() < cfg["fail_call_rate"]:
@@ -273,7 +281,7 @@ def gen_plan(rng):
             objs.append({"id": oid, "params": p["params"], "array_params": p["array_params"],
                          "kind": "program", "derived": None})
     for st in steps:
-        if st["op"] in ("call", "digraph", "match", "dumps") and rng.random() < cfg["intr_rate"]:
+        if st["op"] in ("call", "digraph", "match", "dumps", "dump") and rng.random() < cfg["intr_rate"]:
             st["fault"] = {"kind": "intr", "exc": rng.choice(["MemoryError", "KeyboardInterrupt"]),
                            "frac": rng.random()}
     return {"prop": PROP, "steps": steps, "cfg": cfg}
@@ -373,8 +381,14 @@ def run(plan, ctx):
             if op == "digraph" and f.get("argless"):
                 bump("probe:digraph_on_argless_program")
             operands = [x for x in (st.get("obj"), st.get("t"), st.get("p")) if x]
-            if op in ("call", "digraph", "match", "dumps", "attrs", "iter", "deepcopy") and \
-                    operands and all(x in model for x in operands) and not ev.get("fired"):
+            writer_failed = op == "dump" and bool(ev.get("writer_failed"))
+            if op == "dump" and st.get("writer", "ok") != "ok":
+                bump("fault_configured:writer_error_in_dump")
+                if writer_failed:
+                    bump("fault_fired:writer_error_in_dump")
+            if op in ("call", "digraph", "match", "dumps", "dump", "attrs", "iter", "deepcopy") and \
+                    operands and all(x in model for x in operands) and not ev.get("fired") and \
+                    not (op == "dump" and st.get("writer", "ok") != "ok"):
                 # R4: what a read-only operation returns depends only on the content of its
                 # operands (and the values passed) - equal programs answer equal operations
                 # equally, whatever read-only or failed operations either has been through
@@ -424,7 +438,9 @@ def run(plan, ctx):
                     bump("probe:match_failed_after_graphs_built")
             if op == "digraph" and ev.get("ok") and st.get("out"):
                 graphs_of.setdefault(st["obj"], set()).add(st["out"])
-            if op == "dumps" and not ev.get("fired"):
+            if op in ("dumps", "dump") and not ev.get("fired") and not writer_failed:
+                # (a dump whose writer never failed - e.g. 'fail at the 3rd write' when there
+                # is only one - is an ordinary dump: what was written is the serialisation)
                 want = model.get(st["obj"])
                 if want is not None:
                     if ev.get("ok"):
@@ -433,7 +449,7 @@ def run(plan, ctx):
                         got = D.sha(["exc", ev["res"][1]])
                     if got != want[1]:
                         viol.append({"inv": "R1", "step": i, "obj": st["obj"],
-                                     "detail": "dumps(%s) at step %d returned %s, but the serialisation of an "
+                                     "detail": "dump/dumps(%s) at step %d produced %s, but the serialisation of an "
                                                "equal copy taken just before was different" %
                                                (st["obj"], i, (ev["res"].get("text") if ev.get("ok") else ev["res"]))})
         # R1/R2: nothing but the declared mutation target may change
